@@ -38,7 +38,7 @@ def run(R):
         un = tonic.body('service::router::unimplemented::{closure#0}')
         R.saw(un)
         su = un.calls(pat='Status::unimplemented')
-        ih = un.calls(pat='Status::into_http')
+        ih = status_response_sites(tonic, un)
         em = un.calls(pat='Body', name='empty') + [x for c_ in tonic.bodies if c_.kind == 'closure' and c_.path.startswith(un.path + '::') for x in c_.calls(pat='Body', name='empty')]
         R.check(len(su) == 1 and len(ih) == 1 and len(em) == 1 and term_contains(un.origin(ih[0][1]['args'][0]), lambda x: is_call(x, pat='Status::unimplemented')), 'C10.R1', 'fallback=unimplemented', site(un), 'Status::unimplemented("").into_http() with an empty body')
         makers = {}
